@@ -504,6 +504,62 @@ def m_seq_retain(ex, st, callee, args, dty, m):
     return ("__inline__", b, [env, Ref(c, p, True)] + items)
 
 
+# ---------------------------------------------------------------- HashMap::retain over a tracked map with unconditionally present entries
+@model(r"(?:AHashMap|HashMap)::<.*>::retain::<.*>$")
+def m_map_retain(ex, st, callee, args, dty, m):
+    mref = args[0]
+    mv = deref(ex, mref)
+    if not isinstance(mv, MapV) or mv.entries is None:
+        return NotImplemented
+    closure = args[1]
+    cbody = ex.closure_body(closure)
+    if cbody is None:
+        return NotImplemented
+    live = [i for i, e in enumerate(mv.entries) if not z3.is_false(z3.simplify(e[0]))]
+    for i in live:
+        if not z3.is_true(z3.simplify(mv.entries[i][0])):
+            raise Unsupported("retain over a map with conditionally present entries")
+    n = len(live)
+    _DRIVER_COUNT[0] += 1
+    k = _DRIVER_COUNT[0]
+    b = _MIR.Body("__map_retain_%d" % k, "synthetic")
+    b.args = [("_1", "env"), ("_M", "map")] + [("_K%d" % i, "key") for i in range(n)] + [("_V%d" % i, "value") for i in range(n)]
+    b.locals = dict(b.args)
+    b.locals["_0"] = "()"
+    b.locals["_G"] = "bool"
+    b.locals["_U"] = "()"
+    tok_call, tok_drop = "__closure_call__%d" % k, "__map_retain_drop__%d" % k
+
+    def drop(ex_, st_, callee_, a, dt, mm, live=live):
+        mp = deref(ex_, a[0])
+        mp.entries[live[as_int(a[1])]][0] = z3.BoolVal(False)
+        return UNIT
+    ex.models = [(re.compile(re.escape(tok_call) + "$"), lambda ex_, st_, callee_, a, dt, mm, cb=cbody: ("__inline__", cb, a)),
+                 (re.compile(re.escape(tok_drop) + "$"), drop)] + list(ex.models)
+
+    def blk(name):
+        bb = _MIR.Block(name, False)
+        b.blocks[name] = bb
+        return bb
+    for i in range(n):
+        bb = blk("bb%d" % (3 * i))
+        bb.term = ("call", ("local", "_G"), tok_call, [("copy", ("local", "_1")), ("copy", ("local", "_K%d" % i)), ("copy", ("local", "_V%d" % i))], {"return": "bb%d" % (3 * i + 1)})
+        sw = blk("bb%d" % (3 * i + 1))
+        sw.term = ("switch", ("copy", ("local", "_G")), [("0", "bb%d" % (3 * i + 2)), ("otherwise", "bb%d" % (3 * i + 3))])
+        dr = blk("bb%d" % (3 * i + 2))
+        dr.term = ("call", ("local", "_U"), tok_drop, [("copy", ("local", "_M")), ("const", "%d_usize" % i)], {"return": "bb%d" % (3 * i + 3)})
+    blk("bb%d" % (3 * n)).term = ("return",)
+    by_ref = cbody.args[0][1].lstrip().startswith("&")
+    env = closure
+    if by_ref and not isinstance(closure, Ref):
+        env = Ref(Cell(closure), (), True)
+    if not by_ref and isinstance(closure, Ref):
+        env = deref(ex, closure)
+    keys = [Ref(Cell(mv.entries[i][1]), ()) for i in live]
+    vals = [Ref(mv.entries[i][2], (), True) for i in live]
+    return ("__inline__", b, [env, mref] + keys + vals)
+
+
 # ---------------------------------------------------------------- Ordering::then / then_with
 @model(r"(?:std|core)::cmp::Ordering::then$")
 def m_ordering_then(ex, st, callee, args, dty, m):
